@@ -79,6 +79,7 @@ class Model:
         self.names = [a.name for a in t.topology.atoms]
         self.res = [a.residue.name for a in t.topology.atoms]
         self.fuzzy = False       # True once a numeric (non-indexing) op happened: compare xyz with tolerance
+        self.shared_edit = False  # coordinates were rewritten through a copy=False child that shares their memory
         self.centered = False
 
     # number of frames / atoms
@@ -107,7 +108,7 @@ class Model:
             ops += [("atom_slice", False), ("atom_slice", True)]
         ops += [("center", False), ("center", True), ("superpose",), ("superpose_shifted",)]
         ops += [("remove_solvent", False), ("remove_solvent", True), ("remove_solvent_exclude",)]
-        ops += [("set_xyz",), ("set_time",)]
+        ops += [("set_xyz",), ("set_time",), ("child_nocopy_superpose",)]
         if self.L is not None:
             ops += [("set_lengths",), ("set_angles",)]
         return ops
@@ -128,6 +129,8 @@ class Model:
 
     def apply(self, op):
         k = op[0]
+        if k in ("center", "superpose", "superpose_shifted", "set_xyz"):
+            self.shared_edit = False       # t rewrites its own coordinates: its cache is its own business again
         if k == "idx":
             self._index(op[1])
         elif k == "slice":
@@ -182,6 +185,14 @@ class Model:
         elif k == "set_xyz":
             self.xyz = self.xyz + 1.0
             self.fuzzy = True
+        elif k == "child_nocopy_superpose":
+            # v = t.slice(slice(0, n), copy=False) is documented to be allowed to share t's coordinate memory; v is then
+            # superposed in place.  Whether memory is shared is the implementation's choice, so the model adopts t's
+            # coordinates afterwards; t's own centring cache cannot know about the edit (not judged until t rewrites
+            # its coordinates itself), but the NEXT centring / superposition of t must act on the coordinates t has now.
+            self.xyz = None
+            self.fuzzy = True
+            self.shared_edit = True
         elif k == "set_time":
             self.time = self.time * 2.0 + 1.0
         elif k == "set_lengths":
@@ -259,6 +270,15 @@ def apply_real(t, op):
         return t, [], "inplace"
     if k == "set_xyz":
         t.xyz = t.xyz + 1.0
+        return t, [], "inplace"
+    if k == "child_nocopy_superpose":
+        t.center_coordinates()
+        v = t.slice(slice(0, t.n_frames), copy=False)
+        ref = md.Trajectory(v.xyz[:1] + np.array([1.5, -0.5, 2.0], dtype=np.float32), v.topology)
+        if v.n_atoms >= 3:
+            v.superpose(ref, 0)
+        else:
+            v.xyz[:] = v.xyz + np.float32(0.75)
         return t, [], "inplace"
     if k == "set_time":
         t.time = t.time * 2.0 + 1.0
@@ -418,7 +438,7 @@ def run_history(init, hist, seed, scratch, seen_states):
         except Exception as e:  # noqa
             return ("%s|raised|%s" % (op[0], type(e).__name__), "init=%s history=%s: %s raised %s: %s" % (init, hist[:i + 1], op, type(e).__name__, str(e)[:160]), rep), 0
         bad = check_state(t, m, inputs, rule, op)
-        if bad is None:
+        if bad is None and not m.shared_edit:
             bad = check_precentered(t)
         if bad is not None:
             prev = hist[i - 1][0] if i else "-"
